@@ -141,7 +141,7 @@ PROPS = {
         verus=[('u_eq', [r'^Value::<PartialEq>::eq$', r'^Ref::<PartialEq>::eq$', r'^Dict::partial_cmp$', r'^lemma_value_eq_same_kind$',
                          r'^Value::is_(null|marker|remove|na)$']),
                ('u_eq', [r'^Dict::cmp$', r'^lemma_dict_cmp_eq$'], dict(one_spelling=True)),
-               ('u_hash', [r'^Value::hash$', r'^Ref::hash$', r'^lemma_value_eq_hash$', r'^Ref::cmp$', r'^Ref::partial_cmp$', r'^lemma_ref_cmp_eq$'], dict(one_spelling=True))],
+               ('u_hash', [r'^Value::hash$', r'^Ref::hash$', r'^lemma_value_eq_hash$', r'^Ref::cmp$', r'^Ref::partial_cmp$', r'^lemma_ref_cmp_eq$', r'^(Date|Time|DateTime)::(cmp|partial_cmp)$'], dict(one_spelling=True))],
         kani=[dict(harness='k_number_laws', klass='complete', schema=['f64', 'f64', 'f64'], family='number-laws', target='Number eq/cmp/partial_cmp'),
               dict(harness='k_number_eq_hash', klass='complete', schema=['f64', 'f64'], family='number-hash', target='Number eq/hash'),
               dict(harness='k_number_units_cmp_eq', klass='complete', schema=['u8', 'u8', 'f64', 'f64'], family='number-units', target='Number cmp/eq with units'),
@@ -160,7 +160,7 @@ PROPS = {
                     'always Some of the total order. Proof (Verus, unit u_hash) of the hashing half of the lifting: the real Value::hash feeds a Hasher '
                     'exactly value_hs(v) -- the payload\'s own stream for each of the 18 kinds, nothing for Marker / Remove / Na -- and the real Ref::hash feeds '
                     'the id only, never the display name; lemma_value_eq_hash then proves value_eq(a, b) ==> value_hs(a) == value_hs(b) for all values, given that '
-                    'equal payloads feed equal streams (Kani for Number and Coord; assumed of std / chrono / rustc derives for the rest). The hand-written Dict::cmp is verified on its real body against dict_cmp (two empty dicts Equal, otherwise std\'s lexicographic order of the key sequences, then of the value sequences), and lemma_dict_cmp_eq proves it answers Equal exactly for dicts with the same keys bound to equal values (given that a lexicographic comparison is Equal exactly for pairwise Equal sequences). The hand-written order of Ref is under contract too: the real Ref::cmp is std\'s String order of the ids and Ref::partial_cmp is Some of it, so cmp answers Equal exactly when == holds (lemma_ref_cmp_eq) and display names play no part. A failed value_hs clause '
+                    'equal payloads feed equal streams (Kani for Number and Coord; assumed of std / chrono / rustc derives for the rest). The hand-written Dict::cmp is verified on its real body against dict_cmp (two empty dicts Equal, otherwise std\'s lexicographic order of the key sequences, then of the value sequences), and lemma_dict_cmp_eq proves it answers Equal exactly for dicts with the same keys bound to equal values (given that a lexicographic comparison is Equal exactly for pairwise Equal sequences). The hand-written order of Ref is under contract too: the real Ref::cmp is std\'s String order of the ids and Ref::partial_cmp is Some of it, so cmp answers Equal exactly when == holds (lemma_ref_cmp_eq) and display names play no part. The hand-written orders of Date, Time and DateTime are verified on their real bodies too: cmp is chrono\'s order of the wrapped value and partial_cmp is Some of exactly that order (arguments in the same positions), so the partial order always answers and gives the total order\'s answer. A failed value_hs clause '
                     'alone pins one of many legal hashing schemes, so it is reported as a violation only with a witness from the equality-law enumerators.'),
         not_decided=('the payload equalities of Str/Uri/Symbol/XStr (derived, delegate to String), Date/Time/DateTime (chrono), List/Dict/Grid (std Vec / BTreeMap) are '
                      'named but not decided (uninterpreted or assumed structural); antisymmetry and transitivity of Dict::cmp (inherited from std\'s lexicographic Iterator::cmp, assumed); the derived Ord of Value (assumed Equal exactly when == holds); the payload Hash impls other than Number / Coord / Ref (std, chrono, rustc derives: assumed to respect ==); the Hasher is an abstract byte sink (Hasher::finish is assumed to be a function of the bytes fed); rustc derives are assumed lexicographic/structural; '
